@@ -47,7 +47,7 @@ def cases(ctx):
     # ("same-object": the compiled subroutine itself is filled in again for every round; "...-refused-first": a first attempt to
     # fill in lacks a value and is refused, the complete one follows; "hw-template": the NV compiler on the hardware setting)
     for route in ("copies", "proto", "same-object", "same-object-refused-first", "proto-refused-first", "hw-template", "proto-same-object",
-                  "proto-queued-between"):
+                  "proto-queued-between", "hw-template-d0", "hw-template-d1", "hw-template-d2", "hw-template-d3"):
         for host_values in (False, True):
             for _ in range(2 if ctx.quick else 20):
                 k += 1
@@ -146,7 +146,10 @@ def _template_routes(ctx, case):
     from netqasm.sdk.qubit import Qubit
     from vf.harness.pipeline import Pipe
     route, values, nv = case["route"], case["values"], case["hardware"] == "nv"
-    hw_t = route == "hw-template"
+    hw_t = route.startswith("hw-template")
+    # ("hw-template-dK": the templated numerator with denominator K != 4 on the hardware setting - a value that is filled in later
+    # cannot be rescaled to units of pi/16 at compile time: refused, or else the rotation applied is the angle n * pi / 2^K)
+    hw_d = int(route[-1]) if route.startswith("hw-template-d") else 4
     pipe = Pipe(script=[0] * 16, hardware="nv" if hw_t else case["hardware"], max_qubits=3)
     nv = nv or hw_t
     wrap = (lambda v: hostdiff._HostValue(v)) if case.get("host_values") else (lambda v: v)
@@ -157,12 +160,21 @@ def _template_routes(ctx, case):
         with pipe.conn as conn:
             def block():
                 q = Qubit(conn)
-                q.rot_X(n=Template("a"), d=4)
+                q.rot_X(n=Template("a"), d=hw_d)
                 q.rot_Z(n=Template("b"), d=4 if hw_t else 3)
                 q.measure()
-            if route in ("same-object", "same-object-refused-first", "hw-template"):
+            if route in ("same-object", "same-object-refused-first") or hw_t:
                 block()
-                tmpl = conn.compile()
+                try:
+                    tmpl = conn.compile()
+                except ValueError as e:
+                    if hw_d == 4 or "angle_denom 4" not in str(e):
+                        raise
+                    ctx.count("hardware_templates_with_other_denominators_refused")
+                    conn.builder._reset() if hasattr(conn.builder, "_reset") else None
+                    for q_ in list(conn.active_qubits):
+                        q_.active = False
+                    return ctx.case(case, True)
                 kept_vals = {}
                 for a_, b_ in values:
                     if route == "same-object" and case.get("host_values"):
@@ -232,6 +244,11 @@ def _template_routes(ctx, case):
         set_is_using_hardware(False)
     got = [(ev[0], ev[2]) for ev in pipe.ex.trace if ev[0] in ("rot_x", "rot_z")]
     want = [x for a_, b_ in values for x in (("rot_x", a_), ("rot_z", b_))]
+    if hw_d != 4:
+        # accepted: judged by the angle (in units of pi / 16, modulo a full turn)
+        ctx.count("hardware_templates_with_other_denominators_accepted")
+        got = [(ev[0], (ev[2] * 2 ** (4 - ev[3])) % 32 if ev[3] <= 4 else None) for ev in pipe.ex.trace if ev[0] in ("rot_x", "rot_z")]
+        want = [x for a_, b_ in values for x in (("rot_x", (a_ * 2 ** (4 - hw_d)) % 32), ("rot_z", b_ % 32))]
     if nv:
         got = [g for g in got if g in want] if len(got) != len(want) else got
     if got != want:
